@@ -1,4 +1,5 @@
 import BqVerif.Proofs.PickleMain
+import BqVerif.Proofs.PickleKahn
 import BqVerif.Proofs.PickleRec
 import BqVerif.Proofs.PickleErr
 /-!
@@ -52,16 +53,24 @@ theorem C16_reduce_rebuild_iteration (c : Circ) (hi : c.Inv) (hr : c.radOk = tru
   exact ⟨c', h1, h2, sameLayout_inv h2 hi, sameLayout_cell h2 hi, sameLayout_timeline h2 hi,
     forall₂_perm_length h2.2⟩
 
-/-- `__reduce__` as the code runs it (DAG iterator).  HYPOTHESIS, stated explicitly and
-checked by the driver on every circuit of the workload: the heap-ordered Kahn walk yields
-non-decreasing cycle indices and each operation once (`iterOkB c c.iterKahn`; this is C05's
-`iter_kahn_eq_rowmajor`). -/
+/-- The heap-ordered Kahn walk (model of `CircuitDagIterator`, the iteration `__reduce__`
+uses) yields cycle indices in non-decreasing order, all in range — for EVERY circuit. -/
+theorem C16_kahn_order (c : Circ) :
+    (c.iterKahn.map (·.1)).Pairwise (· ≤ ·) ∧ (∀ x ∈ c.iterKahn, x.1 < c.numCycles) ∧
+    (c.kahnCovers = true → c.iterOkB c.iterKahn = true) :=
+  ⟨iterKahn_sorted c, iterKahn_range c, iterOkB_kahn c⟩
+
+/-- `__reduce__` as the code runs it (DAG iterator).  Remaining HYPOTHESIS, stated explicitly
+and evaluated by the driver on every circuit of the workload: the items the Kahn walk yields
+with cycle index `k` are exactly the operations of cycle `k` (each operation once; C05's
+`iter_kahn_eq_rowmajor`).  That the indices come in order is `C16_kahn_order`. -/
 theorem C16_reduce_rebuild_dag (c : Circ) (hi : c.Inv) (hr : c.radOk = true)
-    (hk : c.iterOkB c.iterKahn = true) :
+    (hk : c.kahnCovers = true) :
     ∃ c', c.reduce.rebuild = .ok c' ∧ SameLayout c' c ∧ c'.Inv ∧
       (∀ k q, c'.cell k q = c.cell k q) ∧ (∀ q, c'.timeline q = c.timeline q) ∧
       c'.numCycles = c.numCycles :=
-  C16_reduce_rebuild_iteration c hi hr c.gateTable (mem_gateTable c) c.iterKahn hk
+  C16_reduce_rebuild_iteration c hi hr c.gateTable (mem_gateTable c) c.iterKahn
+    (iterOkB_kahn c hk)
 
 /-- a circuit with a block-free mixed-radix layout used for the non-vacuity examples -/
 def exC : Circ := ⟨[2, 3, 2], [[⟨6, [], [2, 0], [2, 2]⟩, ⟨11, [], [1], [3]⟩], [⟨4, [7], [0], [2]⟩]]⟩
